@@ -55,6 +55,17 @@ def gen_case(rng, exact):
             alpha = [[a, rng.choice([0.25, -0.5, 1.0, 0.0, -0.125]) if exact else rng.choice([rng.uniform(-1, 1), 0.0])] for a in keys]
         rounds.append({'t_close': d + 75600, 't_open': d + DAY * (3 if (d // DAY + 3) % 7 == 4 else 1) + 52200,
                        'close': close_p, 'open': open_p, 'universe': universe, 'alpha': alpha})
+    if rounds and rng.random() < 0.5:
+        # the same universe object, sizer and construction model serve all rebalances
+        c['persistent'] = True
+        for r in rounds:
+            r['universe'] = list(rounds[0]['universe'])
+        if rng.random() < 0.4:
+            sgn = rng.choice([0.5, 1.0, 0.25] + ([] if kind == 'long_only' else [-1.0]))
+            c['single_signal'] = sgn
+            for r in rounds:
+                r['alpha'] = [[a, sgn] for a in r['universe']]
+        c['stream'] += ':persistent'
     c['rounds'] = rounds
     return c
 
